@@ -2373,12 +2373,22 @@ impl<'a, 'b, W: Write> SerializeMap for MapSer<'a, 'b, W> {
                     } else {
                         self.ser.write_indent(self.depth)?;
                     }
-                    self.ser.out.write_str(&text)?;
-                    // Defer the decision to put a space vs. newline until we see the value type.
-                    self.ser.out.write_str(":")?;
-                    self.ser.pending_space_after_colon = true;
-                    self.ser.at_line_start = false;
-                    self.last_key_complex = false;
+                    if text.chars().count() > MAX_IMPLICIT_KEY_CHARS {
+                        // Too long for `key: value` on one line: explicit `? key` entry, the
+                        // value follows on its own `: value` line.
+                        self.ser.out.write_str("? ")?;
+                        self.ser.out.write_str(&text)?;
+                        self.ser.at_line_start = false;
+                        self.ser.newline()?;
+                        self.last_key_complex = true;
+                    } else {
+                        self.ser.out.write_str(&text)?;
+                        // Defer the decision to put a space vs. newline until we see the value type.
+                        self.ser.out.write_str(":")?;
+                        self.ser.pending_space_after_colon = true;
+                        self.ser.at_line_start = false;
+                        self.last_key_complex = false;
+                    }
                 }
                 Err(Error::Unexpected { msg }) if msg == "non-scalar key" => {
                     self.ser.write_anchor_for_complex_node()?;
@@ -3058,6 +3068,9 @@ impl StrCapture {
 // ------------------------------------------------------------
 // Key scalar helper
 // ------------------------------------------------------------
+
+/// YAML limits an implicit mapping key (`key: value` on one line) to 1024 characters.
+const MAX_IMPLICIT_KEY_CHARS: usize = 1024;
 
 /// Serialize a key using a restricted scalar-only serializer into a `String`.
 ///
